@@ -19,7 +19,6 @@ import (
 	"math/bits"
 	"math/rand"
 	"path/filepath"
-	"runtime/debug"
 	"slices"
 	"sort"
 	"sync"
@@ -585,15 +584,13 @@ func (c Case) base() string {
 }
 
 func TestCheck(t *testing.T) {
-	// every sub-ring is 1000 short-lived sections per node: collect less often
-	defer debug.SetGCPercent(debug.SetGCPercent(800))
 	r := vlib.New(t, "C21")
 	defer r.Finish()
 	minN := 3
 	maxN := vlib.Pick(r, 5, 7)
 	maxRF := vlib.Pick(r, 2, 3)
 	caches := vlib.Pick(r, []int{1}, []int{1, 0})
-	sMaxN := vlib.Pick(r, 6, 7)
+	sMaxN := 6
 	sMaxRF := vlib.Pick(r, 1, 2)
 	spns := []int{1, 2, 3}
 	nTen := vlib.Pick(r, 40, 200)
